@@ -497,6 +497,11 @@ func (e *Engine) strLen(z, d int, n uint64, limit uint32) int {
 		return int(e.Cfg.Slab)*2 + d
 	case 7: // around a quarter slab: pairs of these sit at the split / merge edges
 		return int(e.Cfg.Slab)/4 + d
+	case 8: // uniform in [0, limit): arbitrary granularity for lend / merge decisions
+		if limit < 2 {
+			return 0
+		}
+		return int(mix64(n*31+7) % uint64(limit-1))
 	}
 	return int(n % 9)
 }
@@ -572,6 +577,41 @@ func (e *Engine) mk(vd *VD, addr atree.Address, limit uint32, depth int) (atree.
 			}
 		}
 		e.Stats.label("nested_container_created")
+		return a, n, nil
+	case "barr":
+		// an array built with the bulk constructor from a stream of mixed sizes (then used like any other value)
+		n := &Node{ID: e.nextNode, Addr: addr, TI: TI{N: vd.N % 5}}
+		e.nextNode++
+		i := 0
+		cls := []int{0, 8, 3, 4, 8, 7, 8, 2, 8, 8, 8, 3}
+		var ferr error
+		a, err := atree.NewArrayFromBatchData(e.St, addr, n.TI, func() (atree.Value, error) {
+			if i >= vd.L || ferr != nil {
+				return nil, nil
+			}
+			h := mix64(vd.N*977 + uint64(i))
+			ev := &VD{K: "s", Z: cls[h%uint64(len(cls))], D: int(h>>8%7) - 3, N: vd.N*1000 + uint64(i)}
+			if i >= vd.L-1-int(vd.N%3) && vd.N%2 == 0 {
+				ev = &VD{K: "u", N: uint64(i)}
+			}
+			v, m, err := e.mk(ev, addr, e.MaxArrElem, depth+1)
+			if err != nil {
+				ferr = err
+				return nil, nil
+			}
+			n.Elems = append(n.Elems, m)
+			i++
+			return v, nil
+		})
+		if ferr != nil {
+			return nil, nil, ferr
+		}
+		if err != nil {
+			return nil, nil, e.viol("NewArrayFromBatchData failed on a valid stream of %d elements: %v", vd.L, err)
+		}
+		n.HA, n.VID, n.HandleStep = a, a.ValueID(), e.step
+		e.Stats.label("nested_container_created")
+		e.Stats.label("bulk_built_array")
 		return a, n, nil
 	case "map", "cmap":
 		if vd.K == "map" && e.excludeF4() {
@@ -650,7 +690,7 @@ func (e *Engine) elemVD(tpl *VD, i uint64, depth int) *VD {
 	}
 	c := *tpl
 	c.N = tpl.N + i*1000003
-	if depth >= 3 && (c.K == "arr" || c.K == "map" || c.K == "cmap") {
+	if depth >= 3 && (c.K == "arr" || c.K == "map" || c.K == "cmap" || c.K == "barr") {
 		return &VD{K: "u", N: c.N}
 	}
 	return &c
